@@ -204,6 +204,9 @@ def gen_attr_op(r, ctx, lab, li, fixed_ver):
     # current values that (may) exist on the object
     def existing():
         if n == 'Name':
+            if r.random() < 0.08:
+                # a value that is given but empty still names one instance
+                return ['', 1]
             return [r.choice(['n%d-%d' % (li, j) for j in range(3)]
                              + ['name-%d' % r.randrange(1, 5)]), 1]
         if n == 'Object Group':
